@@ -84,6 +84,10 @@ type simShape struct {
 	// a replica that applies its own removal runs one more step (the step worker had
 	// already passed the stopped test) instead of vanishing at once
 	LingerRemoved bool
+	// EarlyJoin spares join (config change through the leader, start, catch up) right
+	// after the warm-up, so that the action list runs on a mixed-role shard (full
+	// members + non-voting members / a witness) from its first action on
+	EarlyJoin int
 }
 
 type simCase struct {
@@ -252,6 +256,9 @@ func genShape(t *rapid.T, p profile) simShape {
 	for i := 0; i < sh.Voters+nsp; i++ {
 		sh.TimeoutOffs = append(sh.TimeoutOffs, vfhelp.PickN(t, "toff", sh.ElectionRTT))
 	}
+	if sh.Warm && nsp > 0 && vfhelp.Pick(t, "earlyjoin", 1) == 1 {
+		sh.EarlyJoin = 1 + vfhelp.PickN(t, "earlyjoinn", nsp)
+	}
 	return sh
 }
 
@@ -376,6 +383,11 @@ func (s *sim) setup(sh simShape) {
 		}
 		for i := 0; i < 2; i++ {
 			s.round(true)
+		}
+		for i := 0; i < sh.EarlyJoin; i++ {
+			// (C odd: no promotion, the joiner keeps the role it joined with)
+			s.doAction(simAction{Kind: aJoinFlow, B: i, C: 1})
+			s.flag("early-join")
 		}
 	}
 }
